@@ -99,6 +99,7 @@ func specFromCase(cs CaseSpec) ScheduleSpec {
 	sp.LagAtSecondChange = cs.I("lagatsecond", 0) == 1
 	sp.FFResets = int(cs.I("ffresets", 0))
 	sp.FFSingleServer = cs.I("ffsingle", 0) == 1
+	sp.FFOldest = cs.I("ffoldest", 0) == 1
 	if cs.I("dupcontent", 0) == 1 {
 		sp.DupProb = 0.08
 		sp.EmptyProb = 0.04
@@ -420,6 +421,20 @@ func init() {
 			for i := 0; i < raceSoaks(tier); i++ {
 				cs = append(cs, CaseSpec{Kind: "soak", P: map[string]int64{"n": int64(4 + i%2), "txs": 240, "pace_us": 30000}, S: map[string]string{"race": "1"}})
 			}
+			// validators that reset their running hashgraph in place from the peer
+			// whose anchor is the oldest, i.e. usually to an anchor below their own
+			// last block, with a lagging validator in the network
+			old := 6
+			if tier == "thorough" {
+				old = 60
+			}
+			for j := 0; j < old; j++ {
+				c := CaseSpec{Kind: "history", P: map[string]int64{"n": int64(4 + j%2), "steps": int64(420 + 40*(j%3)), "ffresets": 3, "ffsingle": 1, "ffoldest": 1, "badger": int64(j % 2)}, S: map[string]string{"shape": "lag"}}
+				if j%2 == 1 {
+					c.P["cache"] = int64(2500 + 100*(j%7))
+				}
+				cs = append(cs, c)
+			}
 			// several readers per node that re-read delivered blocks through the
 			// node's block API as fast as they can while consensus goes on
 			// a validator told to leave while its application is busy with a block
@@ -511,6 +526,13 @@ func init() {
 				cs[i].P["harshfaults"] = 1
 				if i%4 == 3 {
 					cs[i].P["storeerr"] = 25 // per mille of SetEvent calls fail
+					cs[i].P["badger"] = 0
+				}
+				if i%8 == 5 {
+					// transient failures writing frames while decided rounds are turned
+					// into blocks (never while a node inserts its own event): the sync
+					// fails, nothing may be committed twice
+					cs[i].P["frameerr"] = int64(60 + 40*(i%5))
 					cs[i].P["badger"] = 0
 				}
 			}
